@@ -101,6 +101,11 @@ pub enum Op {
   BoxIt,
   /// the stream relayed through a Subject used as observer (publish + connect)
   Relay,
+  /// complete_status() in the middle of a chain (its status handle is dropped)
+  Status,
+  /// group_by(v mod 2) flattened back with flat_map: every item reaches its group's subject synchronously, so
+  /// the source order is preserved
+  GroupFlat,
 }
 
 pub const C03_OPS: &[Op] = &[
@@ -146,7 +151,7 @@ pub const C03_OPS: &[Op] = &[
   Op::OnErrorMap,
 ];
 
-pub const PASS_OPS: &[Op] = &[Op::Finalize, Op::BoxIt, Op::Relay];
+pub const PASS_OPS: &[Op] = &[Op::Finalize, Op::BoxIt, Op::Relay, Op::Status, Op::GroupFlat];
 
 /// Operator parameters (drawn by the harness).
 #[derive(Clone, Debug)]
@@ -193,7 +198,7 @@ pub fn sem(op: Op, p: &P, input: &Script, alt: bool) -> Script {
     Op::MapTo => same(xs.iter().map(|_| p.th.clone()).collect()),
     Op::Filter => same(xs.iter().filter(|v| pred(p.pk, &p.th, v)).cloned().collect()),
     Op::FilterMap => same(xs.iter().filter(|v| pred(p.pk, &p.th, v)).map(|v| plus(v, &p.th)).collect()),
-    Op::Tap | Op::Finalize | Op::BoxIt | Op::Relay => same(xs.clone()),
+    Op::Tap | Op::Finalize | Op::BoxIt | Op::Relay | Op::Status | Op::GroupFlat => same(xs.clone()),
     Op::Take => {
       if p.n == 0 {
         if alt {
